@@ -150,6 +150,7 @@ let proj_table = [
   "C20", ["mc="; "e:HE"; "join="];
 ]
 let project (prefixes : string list) (v : vline list) : vline list =
+  List.sort (fun (a, _) (b, _) -> compare a b) @@
   List.map (fun (k, toks) -> (k, List.filter (fun t -> List.exists (fun p -> starts p t) prefixes) toks)) v
 
 let s_vline (k, toks) = k ^ " " ^ String.concat " " toks
